@@ -104,6 +104,8 @@ static int closes_of(uint64_t ino) {
   return it == g_close_count.end() ? 0 : it->second;
 }
 
+static uint32_t g_case_no = 0;
+
 // ---- kernel view -----------------------------------------------------------------------------------------
 struct KernelView { int sockets = 0; int epoll_entries = 0; std::set<int> epolled; int fds = 0; };
 static KernelView kernel_view() {
@@ -111,7 +113,7 @@ static KernelView kernel_view() {
   DIR* d = opendir("/proc/self/fd");
   if (!d) return v;
   std::vector<int> eps;
-  std::set<int> socks;
+  std::set<int> socks, peer_socks;
   while (dirent* e = readdir(d)) {
     if (e->d_name[0] == '.') continue;
     int fd = atoi(e->d_name);
@@ -121,7 +123,18 @@ static KernelView kernel_view() {
     if (n <= 0) continue;
     link[n] = 0;
     v.fds++;
-    if (!strncmp(link, "socket:", 7)) { v.sockets++; socks.insert(fd); }
+    if (!strncmp(link, "socket:", 7)) {
+      socks.insert(fd);
+      // library-side descriptors of scripted peers: TCP sockets whose REMOTE address is a scripted peer's (127.16.* / 127.9.*);
+      // the harness's own ends have 127.0.0.1 as remote, unrelated sockets of other threads are not counted
+      sockaddr_in a{};
+      socklen_t n = sizeof a;
+      if (getpeername(fd, (sockaddr*)&a, &n) == 0 && a.sin_family == AF_INET) {
+        uint32_t ip = ntohl(a.sin_addr.s_addr);
+        uint32_t third = 1 + g_case_no % 200;   // this case's scripted peers only (a straggler of an earlier case is not ours)
+        if (((ip >> 16) == ((127u << 8) | 16u) || (ip >> 16) == ((127u << 8) | 9u)) && ((ip >> 8) & 255) == third) { v.sockets++; peer_socks.insert(fd); }
+      }
+    }
     if (strstr(link, "eventpoll")) eps.push_back(fd);
   }
   closedir(d);
@@ -131,7 +144,7 @@ static KernelView kernel_view() {
     std::string l;
     while (std::getline(in, l))
       // only sockets: other threads register their own wake-up descriptors whenever they like
-      if (!l.compare(0, 4, "tfd:") && socks.count(atoi(l.c_str() + 4))) { v.epoll_entries++; v.epolled.insert(atoi(l.c_str() + 4)); }
+      if (!l.compare(0, 4, "tfd:") && peer_socks.count(atoi(l.c_str() + 4))) { v.epoll_entries++; v.epolled.insert(atoi(l.c_str() + 4)); }
   }
   return v;
 }
@@ -149,6 +162,7 @@ struct SPeer {
   int lib_fd = -1;          // library-side descriptor seen at the 'pre' observation
   uint64_t lib_ino = 0;     // ... and its socket inode (descriptor numbers are reused)
   bool partial_reported = false;
+  bool eof_reported = false;
 };
 
 struct Step {
@@ -303,6 +317,7 @@ static std::string glob(Ctx& c, const KernelView& kv) {
     // a piece whose last block arrived waits in the hash queue with one chunk reference until the verdict (or close) comes
     int hqn = hash_queue_count(c);
     refs -= hqn;
+    bl -= hqn;
     o << "cn" << c.T->dl.connection_list()->size() << ",hs" << hm()->size()
       << ",uu" << m->info()->upload_unchoked() << ",du" << m->info()->download_unchoked()
       << ",geu" << m->up_group_entry()->unchoked()->size() << "/" << m->up_group_entry()->queued()->size()
@@ -319,7 +334,7 @@ static std::string glob(Ctx& c, const KernelView& kv) {
     << ",tu" << torrent::manager->upload_throttle()->throttle_list()->size()
     << ",td" << torrent::manager->download_throttle()->throttle_list()->size()
     << ",sk" << (int)torrent::runtime::socket_manager()->category_managed_size(torrent::runtime::category_generic) - (int)c.base_sm
-    << "~ks" << (kv.sockets - harness_sockets(c)) - (c.base.sockets - c.harness_socks_base)
+    << "~ks" << kv.sockets - c.base.sockets
     << ",ke" << kv.epoll_entries - c.base.epoll_entries
     << ",qu" << torrent::manager->upload_throttle()->throttle_list()->outstanding_quota()
     << ",qd" << torrent::manager->download_throttle()->throttle_list()->outstanding_quota();
@@ -583,7 +598,6 @@ static std::string peer_id(int case_no, int p) {
   return std::string(idbuf, 20);
 }
 
-static uint32_t g_case_no = 0;
 
 // bytes of a 'B' step, built when the step starts (PIECE answers depend on what the library requested)
 static std::string step_bytes(Ctx& c, const Step& st) {
@@ -944,7 +958,7 @@ static std::string run_case(const std::string& line) {
   (void)stopped;
   if (!no_drain_hit) pump_all(c);
   for (auto& p : c.peers)
-    if (p->w.fd != -1 && p->w.eof) c.ev.push_back("E" + std::to_string(p->id));   // the library hung up on the peer
+    if (p->w.fd != -1 && p->w.eof) { c.ev.push_back("E" + std::to_string(p->id)); p->eof_reported = true; }   // the library hung up on the peer
 
   std::string pre = ledger(c, true);
   // a peer the library holds nothing for any more must have seen its connection closed (a descriptor kept open outside
@@ -985,7 +999,7 @@ static std::string run_case(const std::string& line) {
   }
   if (fault == 'Q') {
     // library shutdown with everything live: afterwards the process must hold no library socket
-    int hs = harness_sockets(c);
+    (void)harness_sockets(c);
     g_S.reset();
     KernelView kv = kernel_view();
     int closes_bad = g_close_ebadf.load();
@@ -993,8 +1007,8 @@ static std::string run_case(const std::string& line) {
     for (auto& p : c.peers) if (p->lib_fd >= 0) cl += "p" + std::to_string(p->id) + ":" + std::to_string(closes_of(p->lib_ino)) + ",";
     std::string out = "ev=";
     for (auto& e : c.ev) out += e + ",";
-    out += " pre=" + pre + " post=Q:socks" + std::to_string(kv.sockets - hs) + ",epoll" + std::to_string(kv.epoll_entries) + " || ";
-    std::string verdict = (kv.sockets - hs == 0 && closes_bad == 0) ? "ok" : "VIOL shutdown-leaves-sockets:" + std::to_string(kv.sockets - hs);
+    out += " pre=" + pre + " post=Q:socks" + std::to_string(kv.sockets) + ",epoll" + std::to_string(kv.epoll_entries) + " || ";
+    std::string verdict = (kv.sockets == 0 && closes_bad == 0) ? "ok" : "VIOL shutdown-leaves-sockets:" + std::to_string(kv.sockets);
     if (closes_bad) verdict += " close-ebadf:" + std::to_string(closes_bad);
     for (auto& p : c.peers) if (p->lib_fd >= 0 && closes_of(p->lib_ino) != 1) verdict += " closed-not-once:p" + std::to_string(p->id) + "x" + std::to_string(closes_of(p->lib_ino));
     out += verdict + " ;; cl=" + cl;
@@ -1002,6 +1016,8 @@ static std::string run_case(const std::string& line) {
     std::cout.flush();
     _exit(0);
   }
+  for (auto& p : c.peers)   // peers the library dropped by itself while the fault was handled (e.g. seeders once the download is done)
+    if (p->w.fd != -1 && p->w.eof && !p->eof_reported) { c.ev.push_back("E" + std::to_string(p->id)); p->eof_reported = true; }
   post = ledger(c);
   c.ev.push_back("G");
   // descriptors: each library-side descriptor that existed before the fault and is gone now was closed exactly once
